@@ -215,6 +215,7 @@ type Unit struct {
 	depth    int
 	inlining []*ssa.Function
 	retPCs   [][]string
+	retPos   []token.Pos // return statement of each entry of retPCs
 	unsupported string
 	entryVals map[string]Term // param name -> entry term
 	escCache map[*ssa.Alloc]bool
